@@ -8,7 +8,7 @@ LEVEL = 'model_checking'
 
 def plan(tier):
     units, info = wrgraph.wr_plan(tier)
-    units = units + wrgraph.scale_units(tier)[0]
+    units = units + wrgraph.scale_units(tier)[0] + wrgraph.thread_units()
     return {
         'units': units,
         'rule': '(a) from every canonical state of the closed writer+reader '
@@ -18,7 +18,12 @@ def plan(tier):
                 'non-default arguments anywhere in the file. Each execution '
                 'writes with the real DiffXWriter into an append-only stream, '
                 'reads back with the real DiffXReader and compares every '
-                'record with by-construction expectations. Non-trivial: >= 2 '
+                'record with by-construction expectations; plus two threads '
+                'each writing and reading back its own file (3 documents, all '
+                '6 pairs) under the controlled scheduler of mc/sched.py: every '
+                'interleaving of their stream writes / reads with <= 2 '
+                '(thorough 3) preemptions must give each thread the bytes '
+                'and records it gets alone. Non-trivial: >= 2 '
                 'containers and a non-default argument or non-UTF-8 effective '
                 'encoding.' % (
                     info['graph_states'], info['graph_closed'],
@@ -44,6 +49,9 @@ def oracle(ex):
 
 
 def run_unit(unit, tier):
+    if unit[0] == 'threads':
+        from mc.explore import Acc
+        return wrgraph.run_thread_unit(unit, tier, Acc)
     if unit[0] == 'scale':
         from mc.explore import Acc
         return wrgraph.wr_run_scale_unit(unit, tier, oracle, Acc)
@@ -51,6 +59,9 @@ def run_unit(unit, tier):
 
 
 def replay(payload):
+    if payload.get('kind') == 'threads':
+        return [{'key': k, 'msg': m}
+                for k, m in wrgraph.replay_threads(payload)]
     if payload.get('kind') == 'scale':
         cfgs, variants = wrgraph.scale_units('quick')[1:]
         root, enc, le = variants[payload['variant']]
